@@ -300,32 +300,70 @@ fn run<T: Elem + Clone + Default, N: ArrayLength>(case: &Case) -> Result<(), Str
     Ok(())
 }
 
-/// child process: build a multi-MiB array on a thread with a 256 KiB stack
+/// 16 KiB element: a short array of these is larger than the thread's stack although its length is small
+#[derive(Clone, Copy)]
+pub struct Blk([u8; 16384]);
+impl Default for Blk {
+    fn default() -> Self {
+        Blk([0; 16384])
+    }
+}
+pub trait BigElem: Copy + Default + 'static {
+    fn at(i: usize) -> Self;
+    fn tag(&self) -> u8;
+}
+impl BigElem for u8 {
+    fn at(i: usize) -> u8 {
+        i as u8
+    }
+    fn tag(&self) -> u8 {
+        *self
+    }
+}
+impl BigElem for Blk {
+    fn at(i: usize) -> Blk {
+        let mut b = Blk([0; 16384]);
+        b.0[0] = i as u8;
+        b.0[16383] = i as u8;
+        b
+    }
+    fn tag(&self) -> u8 {
+        self.0[16383]
+    }
+}
+
+/// child process: build an array far larger than the stack on a thread with a 256 KiB stack
 fn big_child(which: u8, huge: bool) -> ! {
-    fn go<N: ArrayLength>(which: u8) -> bool {
+    fn go<T: BigElem, N: ArrayLength>(which: u8) -> bool {
         let n = N::USIZE;
-        let b: Box<GenericArray<u8, N>> = match which {
-            0 => GenericArray::<u8, N>::default_boxed(),
-            1 => Box::<GenericArray<u8, N>>::generate(|i| i as u8),
-            2 => box_arr![7u8; N],
-            3 => (0..n).map(|i| i as u8).collect(),
-            _ => GenericArray::<u8, N>::try_boxed_from_iter((0..n).map(|i| i as u8)).unwrap(),
+        let b: Box<GenericArray<T, N>> = match which % 5 {
+            0 => GenericArray::<T, N>::default_boxed(),
+            1 => Box::<GenericArray<T, N>>::generate(T::at),
+            2 => box_arr![T::at(7); N],
+            3 => (0..n).map(T::at).collect(),
+            _ => GenericArray::<T, N>::try_boxed_from_iter((0..n).map(T::at)).unwrap(),
         };
-        let ok = match which {
-            0 => b[0] == 0 && b[n - 1] == 0,
-            2 => b[0] == 7 && b[n - 1] == 7,
-            _ => b[1] == 1 && b[n - 1] == (n - 1) as u8,
+        let ok = match which % 5 {
+            0 => b[0].tag() == 0 && b[n - 1].tag() == 0,
+            2 => b[0].tag() == 7 && b[n - 1].tag() == 7,
+            _ => b[1].tag() == 1 && b[n - 1].tag() == (n - 1) as u8,
         };
         // round trips documented O(1) must not need stack either
         let v = b.into_vec();
-        let b2 = GenericArray::<u8, N>::try_from_vec(v).unwrap();
+        let b2 = GenericArray::<T, N>::try_from_vec(v).unwrap();
         let s = b2.into_boxed_slice();
-        let b3 = GenericArray::<u8, N>::try_from_boxed_slice(s).unwrap();
+        let b3 = GenericArray::<T, N>::try_from_boxed_slice(s).unwrap();
         ok && b3.len() == n
     }
+    use generic_array::typenum::{U31, U32};
     let h = std::thread::Builder::new()
         .stack_size(256 * 1024)
-        .spawn(move || if huge { go::<U16777216>(which) } else { go::<U4194304>(which) })
+        .spawn(move || match (which / 5, huge) {
+            (0, false) => go::<u8, U4194304>(which),
+            (0, true) => go::<u8, U16777216>(which),
+            (1, false) => go::<Blk, U32>(which),
+            (_, _) => go::<Blk, U31>(which),
+        })
         .unwrap();
     match h.join() {
         Ok(true) => {
@@ -343,9 +381,14 @@ fn run_big(which: u8, huge: bool) -> Result<(), String> {
         return Ok(());
     }
     let name = ["default_boxed", "boxed generate", "box_arr![x; N]", "boxed collect", "try_boxed_from_iter"][which as usize % 5];
+    let shape = match (which / 5, huge) {
+        (0, false) => "4 MiB array of u8",
+        (0, true) => "16 MiB array of u8",
+        (1, false) => "512 KiB array of 32 elements of 16 KiB",
+        _ => "496 KiB array of 31 elements of 16 KiB",
+    };
     Err(format!(
-        "{name} of a {} MiB array on a thread with a 256 KiB stack did not complete (status {:?}): {}",
-        if huge { 16 } else { 4 },
+        "{name} of a {shape} on a thread with a 256 KiB stack did not complete (status {:?}): {}",
         out.status,
         String::from_utf8_lossy(&out.stderr).chars().take(200).collect::<String>()
     ))
@@ -440,6 +483,10 @@ pub fn main() {
             }
         }
     }
+    for which in 5..10u8 {
+        g.push(Case { n: 32, kind: Kind::U8, op: Op::Big(which, false), salt: 0 });
+        g.push(Case { n: 31, kind: Kind::U8, op: Op::Big(which, true), salt: 0 });
+    }
     for which in 0..5u8 {
         g.push(Case { n: 1 << 22, kind: Kind::U8, op: Op::Big(which, false), salt: 0 });
         if args.thorough() || which < 2 {
@@ -461,7 +508,7 @@ pub fn main() {
             prop: PROP,
             level: "exploration",
             rule: "case = (N in {0,1,2,3,4,5,7,8,12,16,33,64,256,1024,65536}, element kind u8/u64/()/drop-tracked, conversion, source length in {0, N-1, N, N+1}, spare capacity 0/1/7, seeded values). Conversions: TryFrom<Vec>, TryFrom<Box<[T]>>, From<GenericArray> for Vec / Box<[T]>, into_boxed_slice, into_vec, try_from_boxed_slice, try_from_vec, Box<GenericArray>::into_iter, try_boxed_from_iter / boxed collect, default_boxed, boxed generate, box_arr! (repeat and list). \
-                   Oracle: contents equal the source Vec in order (values and identities); Ok iff source length = N; on LengthError every element of the rejected source has been dropped; for the conversions documented O(1) the data pointer is unchanged and the recording allocator saw no dealloc/realloc of that block and no new block of its size; the five boxed constructors build 4 MiB and 16 MiB arrays on a thread with a 256 KiB stack inside a child process (a stack round trip kills the child). \
+                   Oracle: contents equal the source Vec in order (values and identities); Ok iff source length = N; on LengthError every element of the rejected source has been dropped; for the conversions documented O(1) the data pointer is unchanged and the recording allocator saw no dealloc/realloc of that block and no new block of its size; the five boxed constructors build 4 MiB and 16 MiB arrays of bytes, and 31- and 32-element arrays of 16 KiB elements, on a thread with a 256 KiB stack inside a child process (a stack round trip kills the child). \
                    non-trivial = wrong source length, or a block-identity check on a non-empty non-zero-sized array, or a multi-MiB construction; distinct = distinct case tuples",
             exhaustive: false,
             assumptions: vec!["the small-stack children are built with the same profile as the harness (opt-level 1): a stack round trip that the optimiser removes entirely would not be seen".into()],
